@@ -208,3 +208,6 @@ func vScope(f func()) {
 
 // vNative reports whether the harness runs natively (replay) rather than under the symbolic engine.
 func vNative() bool { return true }
+
+// vUF is only meaningful under the symbolic engine (contract stubs are not installed natively).
+func vUF(name string, args ...*big.Int) *big.Int { panic(vAssumeFailed{"vUF has no native meaning: " + name}) }
